@@ -1,3 +1,4 @@
+import re
 from collections.abc import Iterable
 
 from formulaic.utils.code import format_expr, sanitize_variable_names
@@ -31,8 +32,16 @@ def sanitize_python_code(expr: str) -> str:
     expr = format_expr(
         sanitize_variable_names(expr, {}, aliases, template="_formulaic_{}")
     )
-    # Longest aliases first, so that an alias which is a prefix of another
-    # cannot clobber it.
-    for alias in sorted(aliases, key=len, reverse=True):
-        expr = expr.replace(alias, f"`{aliases[alias]}`")
+    if aliases:
+        # One pass over whole words, so that neither longer identifiers nor the
+        # restored names themselves are rewritten.
+        pattern = "|".join(
+            re.escape(alias) for alias in sorted(aliases, key=len, reverse=True)
+        )
+        expr = re.sub(
+            rf"\b(?:{pattern})\b",
+            lambda match: f"`{aliases[match.group()]}`",
+            expr,
+            flags=re.ASCII,
+        )
     return expr
